@@ -134,7 +134,7 @@ def export_ops(tp, ctx, fam, blocks, undo, fgn, tag, simulate=None, depth=0, tim
 
 # ------------------------------------------------------------------ driver
 
-def run_driver(ctx, binp, scen_path, lines, tag, bulk=0):
+def run_driver(ctx, binp, scen_path, lines, tag, bulk=0, sigops=0):
     """perform the operation sequences on the real pool; returns (events per trace, model scenario path, stats).
     The driver is restarted after a panic of the pool (its mutex may stay locked) or when the process dies
     (BlockUndone calls os.Exit(1) on its own inconsistency)."""
@@ -156,6 +156,8 @@ def run_driver(ctx, binp, scen_path, lines, tag, bulk=0):
             argv.append("-append")
         if bulk:
             argv += ["-bulk", str(bulk)]
+        if sigops:
+            argv += ["-sigops", str(sigops)]
         p = ctx.run(argv, timeout=3000)
         stderr_tail = p.stderr[-1500:]
         started = 0
@@ -264,8 +266,8 @@ def validate(tp, ctx, events_path, model_path, evict, timeout=3000):
 
 
 class Validator:
-    def __init__(self, ctx, tp, tag, model_path, scen_json, evict=False, bulk=0):
-        self.ctx, self.tp, self.tag, self.model, self.evict, self.bulk = ctx, tp, tag, model_path, evict, bulk
+    def __init__(self, ctx, tp, tag, model_path, scen_json, evict=False, bulk=0, sigops=0):
+        self.ctx, self.tp, self.tag, self.model, self.evict, self.bulk, self.sigops = ctx, tp, tag, model_path, evict, bulk, sigops
         self.scen_json = scen_json
         m = json.load(open(model_path))
         self.scn = {int(t): d for t, d in m["tx"].items()}
@@ -276,7 +278,7 @@ class Validator:
 
     def replay_obj(self, tr, upto=None):
         return {"scenario": json.loads(self.scen_json), "ops": {"ops": tr["ops"], "obs": tr.get("obs", 1)}, "evict": self.evict,
-                "bulk": self.bulk, "failing_event": upto}
+                "bulk": self.bulk, "sigops": self.sigops, "failing_event": upto}
 
     def report(self, tr, inv, k):
         """violation of `inv` in the state after event k (0-based) of trace tr"""
@@ -374,7 +376,7 @@ class Validator:
         if o.get("mptext"):
             what += " | MempoolCheck: " + o["mptext"][:300].replace("\n", " / ")
         self.ctx.violation(KNOWN_SIG, {"scenario": json.loads(self.scen_json), "ops": {"ops": s["ops"], "obs": s["obs"]}, "evict": self.evict,
-                                       "bulk": self.bulk, "failing_event": len(s["events"])}, what)
+                                       "bulk": self.bulk, "sigops": self.sigops, "failing_event": len(s["events"])}, what)
         return len(self.known_samples)
 
 
@@ -449,17 +451,17 @@ def split(lst, n):
     return [lst[i::n] for i in range(n)]
 
 
-def drive_and_validate(ctx, tp, binp, scen_json, lines, tag, nproc, evict=False, bulk=0, stats=None):
+def drive_and_validate(ctx, tp, binp, scen_json, lines, tag, nproc, evict=False, bulk=0, sigops=0, stats=None):
     """operation sequences -> real pool -> recordings -> TLC; returns (traces validated, events)"""
     scen_path = os.path.join(ctx.scratch, "scen-%s.json" % tag)
     open(scen_path, "w").write(scen_json)
     chunks = split(lines, nproc)
 
     def one(chunk, k):
-        traces, model, st = run_driver(ctx, binp, scen_path, chunk, "%s-%d" % (tag, k), bulk=bulk)
+        traces, model, st = run_driver(ctx, binp, scen_path, chunk, "%s-%d" % (tag, k), bulk=bulk, sigops=sigops)
         for tr, ln in zip(traces, chunk):
             tr["obs"] = ln.get("obs", 1)
-        v = Validator(ctx, tp, "%s-%d" % (tag, k), model, scen_json, evict=evict, bulk=bulk)
+        v = Validator(ctx, tp, "%s-%d" % (tag, k), model, scen_json, evict=evict, bulk=bulk, sigops=sigops)
         v.check(traces)
         return v, traces
     res = par(one, chunks, nproc)
@@ -521,7 +523,7 @@ def run(ctx):
 
     # ---- 2. operation sequences of the bounded model, performed on the real pool, recordings validated
     gen_bounds = (1, 1, 1) if quick else (2, 2, 2)
-    cap = 250 if quick else 5000
+    cap = 180 if quick else 5000
     ejobs = [(f, m) for f in FAMS for m in ("bfs", "sim")]
     per = max(1, nproc // len(ejobs)) if quick else max(2, nproc // 3)
 
@@ -532,7 +534,7 @@ def run(ctx):
             if ntrans != r.generated - 1:
                 raise Infra("export %s: %d lines for %s generated states" % (fam, ntrans, r.generated))
         else:
-            r, scen, lines, ntrans = export_ops(tp, ctx, fam, 3, 2, 2, tag=fam + "-sim", simulate="num=%d" % (30 if quick else 600), depth=12)
+            r, scen, lines, ntrans = export_ops(tp, ctx, fam, 3, 2, 2, tag=fam + "-sim", simulate="num=%d" % (20 if quick else 600), depth=12)
         if not lines:
             raise Infra("export %s/%s produced no operation sequences\n%s" % (fam, mode, r.tail))
         if len(lines) > cap:
@@ -580,7 +582,7 @@ def run(ctx):
     d = os.path.join(ctx.scratch, "rankrun")
     os.makedirs(d, exist_ok=True)
     sp, op = os.path.join(d, "scen.json"), os.path.join(d, "ops.ndjson")
-    nrk, nrt = (52, 2) if quick else (64, 4)
+    nrk, nrt = (52, 1) if quick else (64, 4)
     p = ctx.run([binp, "gen", "-seed", str(ctx.seed * 1000 + 997), "-ntx", "4", "-traces", str(nrt), "-ops", "0", "-rankrun", str(nrk),
                  "-scenario", sp, "-opsout", op], timeout=600)
     if p.returncode != 0:
@@ -593,6 +595,34 @@ def run(ctx):
     if not ctx.violations and (rst.get("max_pool") or 0) < nrk:
         raise Infra("rank run: the pool never held the run (%s transactions)" % rst.get("max_pool"))
     ctx.log("rank-run tier: %d traces, %d events, largest pool %s transactions" % (tv, evs, rst.get("max_pool")))
+
+    # ---- 3c. sigop family: scripts that carry signature operations (P2SH redeem scripts, P2WSH and P2SH-P2WSH witness
+    # scripts, P2WPKH, bare CHECKSIG outputs); together more than a block may carry, so the assembly - which cuts
+    # the listing on the pool's RECORDED cost, as client/rpcapi does - matters; every recorded cost is compared
+    # with the driver's own BIP141 count (AttrsExact)
+    d = os.path.join(ctx.scratch, "sigops")
+    os.makedirs(d, exist_ok=True)
+    sp, op = os.path.join(d, "scen.json"), os.path.join(d, "ops.ndjson")
+    nsg, nst = (72, 1) if quick else (72, 2)
+    p = ctx.run([binp, "gen", "-seed", str(ctx.seed * 1000 + 996), "-ntx", "4", "-traces", str(nst), "-ops", "0", "-sigops", str(nsg),
+                 "-scenario", sp, "-opsout", op], timeout=600)
+    if p.returncode != 0:
+        raise Infra("mempool gen failed: " + p.stderr[-2000:])
+    sst = {}
+    tv, evs, sres = drive_and_validate(ctx, tp, binp, open(sp).read(), [json.loads(l) for l in open(op)], "sigops", nst, sigops=nsg, stats=sst)
+    traces_validated += tv
+    events_validated += evs
+    cut = 0
+    for _, trs in sres:
+        for tr in trs:
+            for l in tr["events"]:
+                e = json.loads(l)
+                if e["ev"] == "Deliver" and e["src"] == "listing" and e["acc"] and e.get("obs") and e["obs"]["pool"]:
+                    cut += 1        # a listing block was accepted and the pool was not empty afterwards: the assembly had to cut
+    ctx.cov["sigop_tier"] = {"transactions": nsg, "max_pool": sst.get("max_pool"), "events": evs, "listing_blocks_that_had_to_cut": cut}
+    if not ctx.violations and not cut:
+        raise Infra("sigop tier: no block assembly had to cut the listing")
+    ctx.log("sigop tier: %d traces, %d events, largest pool %s transactions, %d assemblies cut" % (tv, evs, sst.get("max_pool"), cut))
 
     # ---- 4. thorough: an 11 MB pool (bulky transactions), size-limit eviction on the way
     if not quick:
@@ -641,6 +671,7 @@ def run(ctx):
         "submissions follow the client's protocol: NeedThisTxExt before HandleNetTx, DeleteRejectedByIdx + NeedThisTxExt before SubmitLocalTx, BlockCommitInProgress around block commits",
         "trusted / own transactions carry valid scripts (the pool does not verify them)",
         "valid spends are anyone-can-spend P2SH/P2WSH scripts or signed with gocoin's own signer (script semantics are C01-C03)",
+        "sigop costs are compared with the driver's own count from the transaction bytes and the spent scripts; blocks from the listing are cut on the pool's recorded weight and sigop cost (as client/rpcapi does) and delivered with full script checks",
         "expiry is reached through the verif-tagged setter of nextTxsPoolExpire and by ageing Lastseen; eviction only in the thorough tier",
         "policy (fee floor, RBF rules, which orphan is dropped, what expires) is not constrained"]
 
@@ -706,7 +737,7 @@ def replay_cmd(ctx, path):
     tp = TlcPool(ctx)
     found = []
     ctx.violation = lambda sig, rp_, what="": found.append((sig, what)) or True      # no new replay files
-    drive_and_validate(ctx, tp, binp, json.dumps(rp["scenario"]), [rp["ops"]], "replay", 1, evict=rp.get("evict", False), bulk=rp.get("bulk", 0))
+    drive_and_validate(ctx, tp, binp, json.dumps(rp["scenario"]), [rp["ops"]], "replay", 1, evict=rp.get("evict", False), bulk=rp.get("bulk", 0), sigops=rp.get("sigops", 0))
     for sig, what in found:
         print("reproduced:", sig, "-", what[:600])
     return 1 if found else 0
